@@ -72,7 +72,7 @@ def _preconditions(prog, rep, f):
                 sym = (s, is_param_err)
             b = m.match(s.test, 'number_of_components(%s) > 1' % arg) or m.match(s.test, 'number_of_components(%s) != 1' % arg)
             if b:
-                callee = prog.resolve_expr(f, s.test.left.func)
+                callee = prog.resolve_expr(f, [x for x in (s.test.left, s.test.comparators[0]) if isinstance(x, ast.Call)][0].func)
                 comp = (s, is_param_err and callee[0] == 'func' and callee[1].name == 'number_of_components'
                         and callee[1].module.modname == 'bct.algorithms.clustering')
     rep.ob('D.precondition-asymmetric-rejected', f, sym[0].test if sym else 'if not np.allclose(R, R.T): raise BCTParamError', bool(sym and sym[1]),
